@@ -377,9 +377,16 @@ JANET_CORE_FN(cfun_table_tostruct,
     janet_arity(argc, 1, 2);
     JanetTable *t = janet_gettable(argv, 0);
     JanetStruct proto = janet_optstruct(argv, argc, 1, NULL);
-    JanetStruct st = janet_table_to_struct(t);
+    /* The prototype is part of a struct's hash: set it before the struct is finished */
+    JanetKV *st = janet_struct_begin(t->count);
+    for (int32_t i = 0; i < t->capacity; i++) {
+        const JanetKV *kv = t->data + i;
+        if (!janet_checktype(kv->key, JANET_NIL)) {
+            janet_struct_put(st, kv->key, kv->value);
+        }
+    }
     janet_struct_proto(st) = proto;
-    return janet_wrap_struct(st);
+    return janet_wrap_struct(janet_struct_end(st));
 }
 
 JANET_CORE_FN(cfun_table_rawget,
